@@ -23,6 +23,10 @@ C = {
          'Version precedence is model-checked for all 720 load orders and the same synthetic files are loaded by the real protocol.load in those orders; every interface x message x argument position and every enum question (entries, unions, 0, outside) is asked of the real lookups and TLC compares each answer with Protocol.tla evaluated on descriptions extracted by separate code; output tokens are validated on sessions over all shipped interfaces.', '4 C07'),
  'C08': ('model_checking', 'TLA+ Session line pipeline: TLC over line streams with EOF at every point, both --supress settings + replay with the input file object as observation point',
          'One item per line, order, passthrough text, --supress, and output-before-next-read are checked by TLC on the model and, on the real tool, by collecting what was written at each readline() call and validating the per-line items; truncation at random byte positions included.', '4 C08'),
+ 'C09': ('model_checking', 'TLA+ Closure!Extract / Printed: TLC laws over all signatures + the real plugin in the real gdb on a mock libwayland and the real log decoder, both compared by TLC with the specification',
+         'Closure.tla defines what must be reported for a closure and what the print-out retains; TLC checks one-argument-per-code / order / agreement for every signature of <= 2/3 tokens with ? markers and version prefixes; thousands of concrete closures (every value class, five call paths, up to 20 arguments) are decoded by the real plugin inside gdb 13 from harness/mockwl.c and by the real log decoder from the printer model\'s line, and TLC compares both with the specification field by field.', '4 C09'),
+ 'C10': ('model_checking', 'TLA+ GdbSession: TLC over all event/command sequences + replay through the real Plugin against a stand-in gdb module + TLC trace validation; TerminalUI prompt loop driven with scripts',
+         'HaltIff and CommandOutcome are checked by TLC on GdbSession over all sequences (<= 5) of hits on two addresses from two threads, destructions and 11 commands; model behaviours and random sequences are executed by the real backends/gdb_plugin/plugin.py (E3-lite) and stop()\'s return value, the executed gdb command, notices and matcher state validated by TLC; the prompt loop of file/run mode is counted on scripted input.', '4 C10'),
  'C11': ('model_checking', 'TLA+ Session!ListResult: TLC over list queries at every point + replay + trace validation',
          'Listed messages (identity, order), last-N, the three counts and read-only-ness are defined in TLA+ and compared by TLC with what the real `list` prints, over model behaviours and random sessions dense in queries.', '4 C11'),
  'C12': ('model_checking', 'TLA+ Matcher!Refine accumulation: TLC explores command chains over an atom pool + replay + extensional comparison by TLC',
@@ -31,6 +35,8 @@ C = {
          'TLC checks Delivered / AllBeforeStatus / StatusPropagated / Terminates on RunMode for every chunking and interleaving of four small streams; real main.py processes are run in the three modes for generated streams under several chunkings, delays, exit timings, statuses and argv with option look-alikes; displays must be identical across modes and equal to the line-by-line run, argv / WAYLAND_DEBUG / stdout / status checked, processed lines and status validated by TLC (TraceRunMode). The reader side of the real interleaving is the kernel\'s.', '4 C13'),
  'C14': ('model_checking', 'TLA+ LetterId: TLC invariants (shortlex increasing, no gaps, round trip) + table of the real letter functions validated by TLC + labels typed back as list matchers in session traces',
          'LetterId.tla defines the labels; TLC proves injectivity/no-gaps/round-trip through three letters, validates the tool\'s two functions entry by entry (through four letters in thorough, samples to 2^31), and validates sessions in which labels known from the generator\'s bookkeeping are used as `list` matchers (objects with > 26 incarnations, > 26 and > 702 connections).', '4 C14'),
+ 'C15': ('model_checking', 'TLA+ GdbSession connections: TLC over hits / destructions (known, closed, never seen) / address reuse / threads + replay through the real Plugin + TLC trace validation',
+         'TLC checks that the address map equals the open connections, reuse of an address yields a fresh connection, destruction closes exactly that connection and every event is tolerated without disturbing others; the same sequences and random ones dense in destructions are executed by the real Plugin (E3-lite) and validated step by step, an exception escaping stop() being an observation of its own.', '4 C15'),
  'C16': ('model_checking', 'TLA+ Session times/separators: TLC over gaps around one second with hidden messages + four concretisations per behaviour + trace validation',
          'The separator rule and relative times are checked by TLC on the model; each behaviour is rendered with four time shifts / decimal marks / dialects and the displayed times and separators validated by TLC.', '4 C16'),
 }
